@@ -1,0 +1,91 @@
+//! Seams for deterministic simulation (cargo feature `verif-hooks`, off by default).
+//!
+//! Nothing in here changes the behaviour of the crate unless one of the `set_*`
+//! functions has been called on the current thread. All state is thread-local.
+//!
+//! * an entropy override consulted by `EvalContext::new`, so that runs which use
+//!   `random` can be reproduced,
+//! * a log of every `random` evaluation (bound, generator draw, value) and of every
+//!   `resetRandom`,
+//! * a replacement for the iteration order of the hash maps which the parser drains
+//!   when it finishes, so that the order is chosen by the simulator and not by the
+//!   per-process `RandomState`.
+
+use std::cell::{Cell, RefCell};
+
+/// One entry of the `random` / `resetRandom` log
+#[derive(Debug, Clone, Copy, PartialEq, Eq)]
+pub enum DrawEvent {
+    /// `random(e)`: the bound `e` has just been evaluated to this value
+    Bound(i64),
+    /// The run's generator is about to be sampled once
+    Draw,
+    /// `random(e)` returned this value
+    Value(i64),
+    /// `resetRandom;` was executed
+    Reset,
+}
+
+thread_local! {
+    static ENTROPY: Cell<Option<u64>> = const { Cell::new(None) };
+    static HASH_ORDER: Cell<Option<u64>> = const { Cell::new(None) };
+    static HASH_DRAINS: Cell<u64> = const { Cell::new(0) };
+    static DRAW_LOG: RefCell<Vec<DrawEvent>> = const { RefCell::new(Vec::new()) };
+}
+
+/// Set (or clear) the seed which `EvalContext::new` uses instead of OS entropy
+pub fn set_entropy(seed: Option<u64>) {
+    ENTROPY.with(|e| e.set(seed));
+}
+
+/// Set (or clear) the seed from which the order of drained parser hash maps is derived
+///
+/// Setting it also restarts the per-thread drain counter, so that the same seed
+/// followed by the same sequence of parses gives the same orders.
+pub fn set_hash_order(seed: Option<u64>) {
+    HASH_ORDER.with(|h| h.set(seed));
+    HASH_DRAINS.with(|c| c.set(0));
+}
+
+/// Take (and clear) the log of `random` / `resetRandom` events of the current thread
+pub fn take_draw_log() -> Vec<DrawEvent> {
+    DRAW_LOG.with(|l| std::mem::take(&mut *l.borrow_mut()))
+}
+
+pub(crate) fn entropy() -> Option<u64> {
+    ENTROPY.with(|e| e.get())
+}
+
+pub(crate) fn log(event: DrawEvent) {
+    DRAW_LOG.with(|l| l.borrow_mut().push(event));
+}
+
+fn splitmix(state: &mut u64) -> u64 {
+    *state = state.wrapping_add(0x9E37_79B9_7F4A_7C15);
+    let mut z = *state;
+    z = (z ^ (z >> 30)).wrapping_mul(0xBF58_476D_1CE4_E5B9);
+    z = (z ^ (z >> 27)).wrapping_mul(0x94D0_49BB_1331_11EB);
+    z ^ (z >> 31)
+}
+
+/// Replace the (hash-dependent) order of `items` by one derived from the hash-order seed.
+///
+/// Does nothing when no seed is set. Otherwise the items are first put into the
+/// canonical order given by `key` and then shuffled with a generator seeded from
+/// (seed, number of drains so far on this thread).
+pub(crate) fn reorder<T>(items: &mut [T], key: impl Fn(&T) -> usize) {
+    let Some(seed) = HASH_ORDER.with(|h| h.get()) else {
+        return;
+    };
+    let n = HASH_DRAINS.with(|c| {
+        let n = c.get();
+        c.set(n + 1);
+        n
+    });
+    items.sort_by_key(|item| key(item));
+    let mut state = seed ^ n.wrapping_mul(0xD6E8_FEB8_6659_FD93);
+    for i in (1..items.len()).rev() {
+        let j = (splitmix(&mut state) % (i as u64 + 1)) as usize;
+        items.swap(i, j);
+    }
+}
